@@ -5,7 +5,14 @@ import signal
 
 
 def limits(mem_gb: float = 6.0):
-    lim = int(mem_gb * (1 << 30))
+    """Cap the address space at what the process already maps (a forked worker inherits the parent's, which holds the
+    emitted transitions in thorough runs) plus mem_gb."""
+    try:
+        with open("/proc/self/statm") as f:
+            current = int(f.read().split()[0]) * resource.getpagesize()
+    except Exception:
+        current = 0
+    lim = current + int(mem_gb * (1 << 30))
     try:
         resource.setrlimit(resource.RLIMIT_AS, (lim, lim))
     except Exception:
